@@ -3,7 +3,7 @@
     MinimizePostGen, MinimizeCorrect, DfaEquivProofs, MinimizeHyps). *)
 From CG Require Import Base.Prelude Model.Dfa Model.Minimize Spec.DfaEquiv Spec.MinimizeSpec.
 From CG Require Import Proofs.HopcroftAbs Proofs.HopcroftSim Proofs.MinimizeImage.
-From CG Require Proofs.DfaEquivProofs Proofs.HopcroftLoop Proofs.MinimizeCorrect Proofs.MinimizeHyps.
+From CG Require Proofs.DfaEquivProofs Proofs.HopcroftLoop Proofs.MinimizeCorrect Proofs.MinimizeHyps Proofs.MinimizeTotal.
 
 (** The faithful model of [do_minimize] (Hopcroft with the dead state 0, the [find_bounds]
     window over the target-sorted transition image, the intern pool, the work-list rule, block
@@ -22,6 +22,25 @@ Check C03_minimise :
     (forall w, accepts m w = accepts d w)
     /\ trim m /\ pairwise_distinguishable m /\ minimal_size m.
 Print Assumptions C03_minimise.
+
+(** Total correctness: on such automata the model neither panics (no [unwrap] of the Rust code
+    can fail) nor runs out of its fuel, which is linear in the number of states
+    ([minimize_fuel d = 2 |states| + 2 |accepting| + 8] pops of the work-list). *)
+Theorem C03_total :
+  forall d, wf d -> trim d ->
+    exists m, minimize d = Ok m
+      /\ (forall w, accepts m w = accepts d w)
+      /\ trim m /\ pairwise_distinguishable m /\ minimal_size m.
+Proof.
+  intros d W T. destruct (MinimizeTotal.minimize_total d W T) as [m Hm].
+  exists m. split; [exact Hm|]. exact (MinimizeCorrect.minimize_correct d m W T Hm).
+Qed.
+Check C03_total :
+  forall d, wf d -> trim d ->
+    exists m, minimize d = Ok m
+      /\ (forall w, accepts m w = accepts d w)
+      /\ trim m /\ pairwise_distinguishable m /\ minimal_size m.
+Print Assumptions C03_total.
 
 (** The same with the hypotheses in the executable form the check evaluates on every raw
     automaton Rust produces. *)
